@@ -169,6 +169,16 @@ class C01(WithEL):
             la = ts if is_int(ts) else la
         if not cfg["hasTimer"]:
             return fails
+        # telemetry is due at the mobility tick that produced it: the k-th update is at k * interval, so the
+        # telemetry rounds of a node are at interval, 2 * interval, ... without a gap and without a lag
+        if cfg["hasMob"] and cfg["dt"] > 0:
+            for node in range(cfg["nNodes"]):
+                times = [c["t"] for c in cbs if c["kind"] == "telemetry" and c["n"] == node and is_int(c["t"])]
+                for k, t in enumerate(times):
+                    if t != (k + 1) * cfg["dt"]:
+                        fails.append(("C01:telemetry-not-at-its-tick", f"telemetry #{k + 1} of node {node} handled at {t}; the "
+                                      f"update that produced it was due at {(k + 1) * cfg['dt']} (interval {cfg['dt']})"))
+                        break
         pend = defaultdict(list)      # (n, name) -> requested times of accepted timers
         sent = {}                     # msg -> send time
         delay = max(cfg["delay"], 0)
